@@ -68,11 +68,12 @@ def path_class_accounts(ctx: Ctx, rng: random.Random, cap: int, tag: str) -> dic
     once with line tracing; one account per distinct (set of executed package lines, kind of outcome) is
     kept - so a path that raises half-way through a multi-variant method is chosen next to the paths it
     could disturb. The classification only CHOOSES inputs, it never judges."""
-    cands = {}
+    cands, special_of = {}, {}
     for meth in c07.METHODS:
         special = c07.boundary_accounts(meth, rng)
         rng.shuffle(special)
         pool = special[:40]
+        special_of[meth] = list(pool)
         for k in range(24 if ctx.quick else 80):
             a = "0" * (k % 4) + "".join(rng.choice("0123456789") for _ in range(10 - k % 4))
             pool.append(a)
@@ -89,6 +90,10 @@ def path_class_accounts(ctx: Ctx, rng: random.Random, cap: int, tag: str) -> dic
             if key not in seen and a not in accts and len(accts) < cap:
                 seen.add(key)
                 accts.append(a)
+        # independent of the code under test (a change can merge two paths into one line set): always
+        # an ordinary account and, where the method has special-case accounts, one of those
+        extra = [a for a in cands[meth] if a[0] != "0" and a not in special_of[meth]][:1] + special_of[meth][:1]
+        accts += [a for a in extra if a not in accts]
         ctx.coverage.setdefault("path_classes_per_method", {})[meth] = len(accts)
         out[meth] = accts
     return out
@@ -325,7 +330,11 @@ def run(ctx: Ctx) -> dict:
                                             or (c.get("bic") or [])[4:6] or []), []).append(i)
     pairs = []
     for key, idxs in sorted(fam.items()):
-        if len(idxs) >= 2:
+        if key.startswith("algo.validate:"):
+            # one Bundesbank method: EVERY pair of its accounts - they are of different path classes
+            # (variant A against variant B of the same method is where shared state is confused)
+            pairs += list(itertools.combinations(idxs, 2))
+        elif len(idxs) >= 2:
             pairs.append((idxs[0], idxs[1]))            # same operation, same country, different inputs
             if len(idxs) >= 3:
                 pairs.append((idxs[1], idxs[2]))
@@ -338,7 +347,7 @@ def run(ctx: Ctx) -> dict:
         other = [p for p in pairs if p not in same]
         algo = [p for p in same if callsl[p[0]]["op"] == "algo.validate"]
         rest = [p for p in same if p not in algo]          # every other same-kind pair: always
-        pairs = rest + rng.sample(algo, min(len(algo), 30)) + rng.sample(other, min(len(other), 20))
+        pairs = rest + algo + rng.sample(other, min(len(other), 20))
     counts = thr_jobs(ctx, [{"mode": "count", "calls": [callsl[a], callsl[b]]} for a, b in pairs], "cnt")
     ljobs, lmeta = [], []
     for (a, b), c in zip(pairs, counts):
